@@ -52,8 +52,16 @@ type script struct {
 	End     endKind
 	EndGap  gap
 	Closer  bool // a second thread calls Close at an arbitrary moment
+	Release string // what a blocked reader returns once Close has been called ("" = "a")
 	Retain  bool // the consumer keeps every sequence and never hands it back
 	Delayed bool // the consumer hands a sequence back only after receiving the next one
+}
+
+func (s *script) release() string {
+	if s.Release == "" {
+		return "a"
+	}
+	return s.Release
 }
 
 func (s script) String() string {
@@ -62,6 +70,9 @@ func (s script) String() string {
 		fmt.Fprintf(&b, "<%s>%q ", gapNames[c.Gap], c.B)
 	}
 	fmt.Fprintf(&b, "<%s>%s", gapNames[s.EndGap], endNames[s.End])
+	if s.Release != "" {
+		fmt.Fprintf(&b, "(then %q)", s.Release)
+	}
 	if s.Closer {
 		b.WriteString(" +closer")
 	}
@@ -134,7 +145,7 @@ func (rd *reader) Read(p []byte) (int, error) {
 			case endErr:
 				return 0, errors.New("read failed")
 			default:
-				rd.cur = []byte("a")
+				rd.cur = []byte(rd.sc.release())
 			}
 		}
 	}
@@ -146,6 +157,11 @@ func (rd *reader) Read(p []byte) (int, error) {
 // the Escape timer can fire only while the parser waits for input that is not prompt
 func (rd *reader) timerGate(t *vtime.Timer) bool {
 	if t.D != 10*time.Millisecond {
+		return true
+	}
+	if vsched.AnyBlockedSend() {
+		// the consumer is slow and the parser waits for room in its channel: any amount of
+		// time passes ("all consumer speeds")
 		return true
 	}
 	if !rd.waiting {
@@ -170,6 +186,9 @@ func allowed(sc *script) (lists [][]string, outside bool) {
 	}
 	if sc.EndGap == boundary || sc.End == endBlock {
 		nb++ // Close (and with it the reader's return) may come before or after the timer
+	}
+	if sc.End == endBlock {
+		nb++ // an ESC returned by the released reader
 	}
 	for mask := 0; mask < 1<<nb; mask++ {
 		m := &parseref.Ref{}
@@ -206,7 +225,16 @@ func allowed(sc *script) (lists [][]string, outside bool) {
 		}
 		if sc.End == endBlock {
 			apply(boundary)
-			m.Feed('a')
+			for _, c := range parseref.RunesOf([]byte(sc.release())) {
+				m.Feed(c)
+				lastESC = c == 0x1B
+			}
+			// the reader returned because of Close: the parser stops; an ESC just read may or
+			// may not have been taken for the Escape key by then
+			if lastESC && mask>>bi&1 == 1 {
+				m.Timeout()
+			}
+			bi++
 		} else {
 			apply(sc.EndGap)
 		}
@@ -564,6 +592,9 @@ func depthScripts(each func(sc script)) {
 			// Close from a second thread, reader returning afterwards
 			each(script{Chunks: b, End: endBlock, EndGap: long, Closer: true})
 			each(script{Chunks: b, End: endBlock, EndGap: long, Closer: true, Retain: true})
+			// the reader returns a reply that starts with ESC (what Suspend provokes), to a slow consumer
+			each(script{Chunks: b, End: endBlock, EndGap: long, Closer: true, Release: "\x1b"})
+			each(script{Chunks: b, End: endBlock, EndGap: long, Closer: true, Release: "\x1b[?62c", Delayed: true})
 			each(script{Chunks: b, End: endEOF, EndGap: eg, Closer: true})
 		}
 	}
